@@ -10,7 +10,7 @@ Require Import Zrs.lib.RsPrelude Zrs.model.BitIO Zrs.model.FseDec Zrs.model.HufD
 Require Import Zrs.proofs.C13_Huffman.
 Require Import Zrs.model.BitIO Zrs.model.BitStream Zrs.model.HufDec Zrs.proofs.C12_Stream Zrs.proofs.C13_Stream.
 Require Import Zrs.gen.Generated Zrs.model.Headers Zrs.model.BlockDec Zrs.model.LitEnc Zrs.proofs.C13_LitSection.
-Require Import Zrs.proofs.C13_Canonical Zrs.proofs.C13_CanonCode.
+Require Import Zrs.proofs.C13_Canonical Zrs.proofs.C13_CanonCode Zrs.proofs.C13_LitAll.
 Open Scope Z_scope.
 
 Theorem C13_shape_valid : forall n, 2 <= n <= 256 ->
@@ -111,6 +111,39 @@ Example C13_canonical_example :
   end.
 Proof. vm_compute. auto. Qed.
 
+(** *** every layout of the literals section
+
+    raw and RLE literals in each of their size formats (1, 2, 3 header bytes), Huffman-coded literals in ONE stream (with a
+    table description or treeless), and the remaining four-stream header format (10-bit sizes); with the four-stream
+    theorems above this is every literals type, stream count and size format of the format *)
+Theorem C13_raw_and_rle_literals_headers : forall ty n rest, (ty = 0 \/ ty = 1) -> 0 <= n < 2 ^ 20 ->
+  lit_header_parse (plain_header ty n ++ rest) = ROk (zlen (plain_header ty n), ty, n, None, None).
+Proof. exact plain_header_parse. Qed.
+
+Theorem C13_raw_literals_decode : forall ht lits,
+  decode_literals {| ls_type := 0; ls_regen := zlen lits; ls_comp := None; ls_streams := None |} ht lits = ROk (ht, lits, zlen lits).
+Proof. exact raw_literals_decode. Qed.
+
+Theorem C13_rle_literals_decode : forall ht b n, 0 <= n ->
+  decode_literals {| ls_type := 1; ls_regen := n; ls_comp := None; ls_streams := None |} ht [b] = ROk (ht, repeat_z b (Z.to_nat n), 1).
+Proof. exact rle_literals_decode. Qed.
+
+Theorem C13_one_stream_headers : forall ty regen comp rest, (ty = 2 \/ ty = 3) -> 0 <= regen < 1024 -> 0 <= comp < 1024 ->
+  lit_header_parse (huf1_header ty regen comp ++ rest) = ROk (3, ty, regen, Some comp, Some 1) /\
+  lit_header_parse (huf4_header10 ty regen comp ++ rest) = ROk (3, ty, regen, Some comp, Some 4).
+Proof. intros. split; [apply huf1_header_parse|apply huf4_header10_parse]; assumption. Qed.
+
+Theorem C13_one_stream_huffman_literals_decode : forall t Mn, ht_max_bits t = Z.of_nat Mn -> (1 <= Mn)%nat -> ht_len t = 2 ^ Z.of_nat Mn ->
+  forall code lits, lits <> [] -> Forall (code_ok Mn code) lits -> Forall (resolves t Mn code) lits ->
+  forall ty desc ht,
+  (ty = 2 /\ huf_build_decoder ht (desc ++ hstream code lits) = ROk (t, zlen desc)) \/ (ty = 3 /\ desc = [] /\ ht = t) ->
+  decode_literals {| ls_type := ty; ls_regen := zlen lits; ls_comp := Some (zlen (desc ++ hstream code lits)); ls_streams := Some 1 |}
+                  ht (desc ++ hstream code lits) = ROk (t, lits, zlen (desc ++ hstream code lits)).
+Proof. exact huffman_one_stream_decodes. Qed.
+
+Print Assumptions C13_raw_and_rle_literals_headers.
+Print Assumptions C13_one_stream_headers.
+Print Assumptions C13_one_stream_huffman_literals_decode.
 Print Assumptions C13_decoder_table_is_a_complete_prefix_code.
 Print Assumptions C13_code_words_of_every_table_resolve.
 Print Assumptions C13_huffman_literals_section_decodes.
